@@ -84,15 +84,6 @@ func materializeProject(p pProject, dir string, brk string) error {
 	case "config-missing":
 	case "config-malformed":
 		os.WriteFile(filepath.Join(dir, "gleece.config.json"), []byte("{ this is not json5"), 0o644)
-	case "routes-unwritable", "spec-unwritable":
-		// a DIRECTORY sits where the artifact goes: the write fails (for root as well) at the very end of the run - the
-		// command must exit non-zero, not report success
-		os.WriteFile(filepath.Join(dir, "gleece.config.json"), []byte(configText(p.Config)), 0o644)
-		target := filepath.Join(dir, "dist", "routes", "gleece.go")
-		if brk == "spec-unwritable" {
-			target = filepath.Join(dir, "dist", "openapi.json")
-		}
-		os.MkdirAll(target, 0o755)
 	default:
 		os.WriteFile(filepath.Join(dir, "gleece.config.json"), []byte(configText(p.Config)), 0o644)
 	}
@@ -210,10 +201,16 @@ func genCli(seed uint64, n int, tier string, emit func(string, []string, any)) {
 		if unwritable {
 			p.Config.Enforce = false
 			in.Project = p
+			// an output path that passes the configuration check but cannot be written at the END of the run (for root
+			// as well): a full device, a file name beyond NAME_MAX - the command must exit non-zero, not report success
 			in.Break = "routes-unwritable"
+			p.Config.RoutesOut = "/dev/full"
 			if kind == "spec" || (kind == "spec-and-routes" && cr.Bool()) {
 				in.Break = "spec-unwritable"
+				p.Config.RoutesOut = ""
+				p.Config.SpecOut = "./dist/" + strings.Repeat("s", 300) + ".json"
 			}
+			in.Project = p
 		} else if cr.Chance(1, 10) {
 			in.Break = rng.Pick(cr, []string{"config-missing", "config-malformed"})
 		}
